@@ -306,7 +306,17 @@ impl<
             fail!(from self, when s.update_connections(),
                 "{} since the connections could not be updated.", msg);
 
-            if self.connection_id != INVALID_CONNECTION_ID {
+            // Deliver only while the channel still belongs to the request this response answers.
+            // When the client has dropped the corresponding `PendingResponse` the channel is
+            // closed or already reused by a newer request; a response delivered then would
+            // occupy the buffer of that newer request and push out its responses.
+            if self.connection_id != INVALID_CONNECTION_ID
+                && s.response_sender.has_channel_state(
+                    self.channel_id,
+                    self.connection_id,
+                    self.header().request_id,
+                )
+            {
                 s.response_sender.deliver_offset_to_connection(
                     &self.chunk,
                     self.channel_id,
